@@ -43,6 +43,31 @@ CHECKS = {
         note='Numeric accuracy of / % ** outside the exact dyadic domain is not judged (type-level wildcard); % with a '
              'negative operand and division by zero are allowed sets (DESIGN Appendix A5).',
         ref='DESIGN.md 5 C03'),
+    'C04': dict(
+        technique='TLA+ frames/lookup/binding semantics (BareCore) + TLC exhaustive model checking of MC_Scope (action '
+                  'properties GlobalsFrame, FunctionBinds) + TLC trace validation of real runs under host configurations',
+        text='MC_Scope explores every statement list <= N over an alphabet of assignments, functions with 0-3 parameters '
+             '(optional "..."), calls with 0-4 arguments and local/global/library name collisions and checks that globals '
+             'change only by top-level assignment or function definition. The same family under four host configurations '
+             '(pre-populated globals shadowing library names with values and functions), random programs with up to 4 '
+             'functions, partials, match-function callbacks and systemGlobalGet/Set, and expression-mode cases with locals '
+             'and globals shadowing built-ins are run by the real code; probes and the final globals object must match.',
+        note='arraySort comparison callbacks are outside the functional model (call pattern unspecified, A28): such runs are '
+             'SKIPped. Reserved names (if/true/false/null) are never used as bindings.',
+        ref='DESIGN.md 5 C04'),
+    'C05': dict(
+        technique='TLC trace validation (Trace_Core): the finish event of every recorded real run must be producible by the '
+                  'specification (documented exception classes only, no alien values); functional comparison where modelled',
+        text='Operators over adversarial operand pairs, every function of the real SCRIPT_FUNCTIONS table x argument tuples '
+             'of length 0..2 (3 in the thorough tier) over one representative per type plus boundary numbers with debug '
+             'on/off, and random programs with failing host functions are executed by the real code; a run is rejected '
+             'when any exception other than BareScriptRuntimeError/BareScriptParserError escapes, when a non-BareScript '
+             'value (e.g. complex) is returned, or - where BareCore models the function - when result, failure value or '
+             'debug-mode failure report differ from the specification.',
+        note='Functions without a functional model (regex*, schema*, data*, datetime*, json*, math transcendentals, fetch) '
+             'are judged for containment only. Library arguments are capped at 1e6 and integer powers with astronomically '
+             'large integer exponents are excluded (resource exhaustion is not part of C05).',
+        ref='DESIGN.md 5 C05'),
 }
 
 NOT_YET = 'check not built yet in this round (work in progress; see DESIGN.md section 9 build order)'
